@@ -53,7 +53,7 @@ impl ASNTag for Boolean {
     open spec fn stree(&self) -> T { tree(Tag::Boolean(*self)) }
 //@lift name=Boolean::into_structure file=lber/src/structures/boolean.rs impl="impl\s+ASNTag\s+for\s+Boolean\s*\{" fn=into_structure canary=skip
 //@ ret r
-//@ tail at="structure::StructureTag {"
+//@ tail last
         proof { assert(verif_ret.payload->P_0@ =~= (if self.inner { seq![0xffu8] } else { seq![0x00u8] })); }
 //@ spec
 //@end
@@ -102,7 +102,7 @@ impl ASNTag for ExplicitTag {
 //@lift name=ExplicitTag::into_structure file=lber/src/structures/explicit.rs impl="impl\s+ASNTag\s+for\s+ExplicitTag\s*\{" fn=into_structure canary=skip
 //@ ret r
 //@ attr #[verifier::exec_allows_no_decreases_clause]
-//@ tail at="structure::StructureTag {"
+//@ tail last
         proof { reveal_with_fuel(st_trees, 3); let v = verif_ret.payload->C_0@; assert(st_trees(v, 1) =~= seq![st_tree(v[0])]); }
 //@ spec
 //@end
